@@ -1,4 +1,5 @@
-"""C18 -- generators emit well-formed, solvable instances: units routing, atsp, sched, graph."""
+"""C18 -- generators emit well-formed, solvable instances: units routing, atspgen (ATSP generator; the name `atsp` is taken by
+the routing-environment adapter), sched, graph."""
 from vt.props._units import run_units
 
 
@@ -19,7 +20,7 @@ def run(ctx, proofs_ok):
 def replay(obj):
     import importlib
     unit = obj.get("unit_module") or obj.get("unit") or ""
-    unit = {"cvrp": "routing", "cvrptw": "routing", "mtvrp": "routing", "op": "routing", "svrp": "routing", "pdp": "routing",
+    unit = {"atsp": "atspgen", "cvrp": "routing", "cvrptw": "routing", "mtvrp": "routing", "op": "routing", "svrp": "routing", "pdp": "routing",
             "mtsp": "routing", "pctsp": "routing", "mdcpdp": "routing", "fjsp": "sched", "jssp": "sched", "ffsp": "sched",
             "smtwtp": "sched", "flp": "graph", "mcp": "graph"}.get(unit, unit)
     try:
